@@ -762,14 +762,22 @@ class BasePlaceholderManager(MpfController):
 
     def _eval_subscript(self, node, variables, subscribe):
         value, subscription = self._eval(node.value, variables, subscribe)
-        if isinstance(node.slice, ast.Constant):
-            return value[node.slice.value], subscription
-        if isinstance(node.slice, ast.Index):
-            slice_value, slice_subscript = self._eval(node.slice.value, variables, subscribe)
+        if not isinstance(node.slice, ast.Slice):
+            # python < 3.9 wraps the index in ast.Index
+            index_node = node.slice.value if isinstance(node.slice, ast.Index) else node.slice
+            slice_value, slice_subscript = self._eval(index_node, variables, subscribe)
+            subscription = subscription + slice_subscript
+            if subscribe and isinstance(value, (BasePlaceholder, DevicePlaceholder, DeviceClassPlaceholder,
+                                                DevicesPlaceholder)):
+                # reading an item of a placeholder reads a variable: subscribe like for attribute access
+                subscription = subscription + [value.subscribe_attribute(slice_value)]
             try:
-                return value[slice_value], subscription + slice_subscript
+                return value[slice_value], subscription
             except ValueError:
-                raise TemplateEvalError(subscription + slice_subscript)
+                if subscribe:   # pylint: disable-msg=no-else-raise
+                    raise TemplateEvalError(subscription)
+                else:
+                    raise
         if isinstance(node.slice, ast.Slice):
             lower, lower_subscription = self._eval(node.slice.lower, variables, subscribe)
             upper, upper_subscription = self._eval(node.slice.upper, variables, subscribe)
